@@ -7,6 +7,7 @@ the object itself has gone out of scope."""
 import re
 
 from emit_cpp import cpp_ty, INST_CPP, CTX_CPP
+from driver import fnptr_key
 
 PRE = r"""
 #include <cstdio>
@@ -18,6 +19,8 @@ static void mock_box_drop(void *p) { box_drops++; box_drop_seq = ++SEQ; (void)p;
 static const void *mock_arc_clone(const void *p) { arc_clones++; arc_clone_seq = ++SEQ; return p; }
 static void mock_arc_drop(const void *p) { arc_drops++; if (!arc_drop_seq_first) arc_drop_seq_first = ++SEQ; else arc_drop_seq_last = ++SEQ; (void)p; }
 static void sent_fn(int32_t a, int32_t b) { (void)a; (void)b; }
+static void sent_fn1(int32_t a) { (void)a; }
+static void sent_fn0() { }
 static void reset() { NLOG = 0; SEQ = 0; box_drops = arc_clones = arc_drops = 0; box_drop_seq = arc_clone_seq = arc_drop_seq_first = arc_drop_seq_last = 0; }
 template<typename T> static bool sent_cb_t(void *c, T p) { (void)c; (void)p; return true; }
 """
@@ -43,7 +46,9 @@ SENT = {
     "KeyValueCallback": (lambda i: "mk_cb<KeyValue>(0x4100 + %d)" % i, lambda a, b: "((%s).context == (%s).context && (%s).func == (%s).func)" % (a, b, a, b)),
     "CIterator<int32_t>": (lambda i: "mk_it(0x4200 + %d)" % i, lambda a, b: "((%s).iter == (%s).iter && (%s).func == (%s).func)" % (a, b, a, b)),
     "CTup2<int32_t, Pair>": (lambda i: "mk_tup(%d)" % i, lambda a, b: "((%s)._0 == (%s)._0 && (%s)._1.a == (%s)._1.a && (%s)._1.b == (%s)._1.b)" % (a, b, a, b, a, b)),
-    "FNPTR": (lambda i: "sent_fn", lambda a, b: "(%s) == (%s)" % (a, b)),
+    "FNPTR2": (lambda i: "sent_fn", lambda a, b: "(%s) == (%s)" % (a, b)),
+    "FNPTR1": (lambda i: "sent_fn1", lambda a, b: "(%s) == (%s)" % (a, b)),
+    "FNPTR0": (lambda i: "sent_fn0", lambda a, b: "(%s) == (%s)" % (a, b)),
 }
 
 
@@ -113,7 +118,7 @@ def gen_root_driver(header_name, em, model, header_text, ri, ctx_override=None):
                 if nm == "":
                     ps.append(ty)
                     an = re.search(r"\(\*(\w+)\)", ty).group(1)
-                    key = "FNPTR"
+                    key = fnptr_key(re.search(r"\)\((.*)\)\s*$", ty).group(1))
                 else:
                     cty = cpp_ty(ty)
                     ps.append("%s%s%s" % (cty, "" if cty.endswith("*") else " ", nm))
